@@ -63,7 +63,9 @@ CLAIMED = {
             "table. Correspondence: the jaq binary (built from /repo every run) on option sets x filters x stdin streams (valid, "
             "truncated, malformed): stdout bytes, stderr presence and exit status against the model's prediction; in-language oracles for "
             "input/inputs consumption order, multiple files, input_filename, --arg/--argjson/--slurpfile/--rawfile/--args/$ENV, -f, "
-            "halt_error. Not covered: terminal detection, colours by environment, Windows.", "7.17",
+            "halt_error; several files against the same inputs on stdin (outputs, outcome, --exit-status per last file; json, raw and "
+            "raw0 readers); stdout and stderr on one pipe (each output written before the next is computed) and dialogues over pipes "
+            "where the peer answers each output with the next input. Not covered: terminal detection, colours by environment, Windows.", "7.17",
             "Coq proof (main loop model) + binary/model correspondence + CLI oracles (partial)"),
     "C03": ("Theorems about the lazy stream model and the interpreter model: whatever follows the items a prefix consumer needs (an "
             "error, a halt, a break, divergence, more items), the first k items, first, limit(n; _) and the consumer that stops iterating "
@@ -115,23 +117,33 @@ CLAIMED = {
             "observed, not proved; no sanitizer.",
             "7.19", "Coq proof (schedule independence of threads sharing an immutable filter) + Send/Sync assertions + concurrent runs"),
     "C07": ("Theorems: for all 256 bytes and both string kinds the reader undoes the writer's escape in one step; whole text strings "
-            "and byte strings of arbitrary bytes (control characters, quotes, DEL, invalid UTF-8) survive print-then-parse. "
+            "and byte strings of arbitrary bytes (control characters, quotes, DEL, invalid UTF-8) survive print-then-parse; integers of any "
+            "size through the number lexer; whole values (value_roundtrip): every value built from null, booleans, integers, text and byte "
+            "strings, arrays and objects with any such values as keys is read back from its compact text as exactly that value, alone or "
+            "inside a longer text. "
             "Correspondence: tojson, tojson|fromjson on exhaustive short strings, floats (edge + random bit patterns), integers of any "
             "size, decimal literals, trees with arbitrary keys; the command line under -c/default/-S/--indent/--tab against the writer "
-            "model and re-read; RFC 8259 texts against Python's json. Partial: nested-value round trip, number round trip and RFC "
-            "acceptance are checked by correspondence/oracle, not yet proved.", "7.7",
-            "Coq proof (strings) + model/implementation correspondence + independent JSON parser"),
+            "model and re-read; RFC 8259 texts against Python's json. Partial: floats and decimal literals inside values (the shortest-digits printer), the "
+            "indented/sorted layouts and RFC acceptance of texts jaq does not print are checked by correspondence/oracle, not proved.", "7.7",
+            "Coq proof (strings, integers, whole values) + model/implementation correspondence + independent JSON parser"),
     "C02": ("Theorems: evaluating an exploded path for paths projects onto evaluating it for values (same values, order, terminator, "
             "optional parts included); .[] enumerates positions and values consistently. Correspondence: path expressions (exhaustive "
             "to depth 2 over 14 atoms, random beyond) x small inputs through [p], path(p), path_value(p), p |= u and the assignment "
             "forms, implementation vs model. Oracle on the implementation: path/path_value/getpath agreement, the manual's reduction "
-            "rules for |= as program equations, iter_upd/index_upd/slice_upd of the manual, value-constructing expressions fail. "
+            "rules for |= as program equations, iter_upd/index_upd/slice_upd of the manual, value-constructing expressions fail, "
+            "p |= u against getpath(path(p)) |= u, setpath and delpaths along path(p) on arrays, objects and text strings. "
             "getpath(path(p)) = p: for paths of any length through iteration, indices, slices and optional parts, every (value, path) pair that is yielded addresses its value - indexing the input along the path gives exactly the value (for values whose objects can be addressed by their own keys - proved for all JSON-like values; a NaN key is the excluded case). Partial: the update table is not yet proved; the path evaluator's clauses for pipes and calls rest on the correspondence.", "7.2",
             "Coq proof (path level) + model/implementation correspondence + in-language identities"),
     "C10": ("Theorems: abs_index selects exactly the positions inside (negatives from the end), slice bounds are clipped into [0,len] "
-            "with non-negative length, open bounds give the whole sequence. Correspondence + Python list-model oracle: exhaustive "
+            "with non-negative length, open bounds give the whole sequence; updates (map_index/map_range of the model): inside an array the "
+            "filter runs on the element the read yields and its first output replaces exactly that element (no output removes it), every "
+            "other position is unchanged; outside or on null the update is refused, or skipped under ?; a slice update replaces exactly "
+            "the clipped window that is read and keeps what lies before and after it (arrays, byte strings; text strings on character "
+            "boundaries); objects: reading probes the entry the update finds, a present key keeps its place and the keys their order, an "
+            "absent key is appended. Correspondence + Python list-model oracle: exhaustive "
             "arrays/strings of length 0-4 (multi-byte and invalid UTF-8), positions in [-6,6], null and wrongly typed positions, "
-            "huge integers, updates with 0/1/2 outputs, slices, objects with arbitrary keys and order of untouched keys.", "7.10",
+            "huge integers, updates with 0/1/2 outputs, slices, two-part paths with each part's own ?, destructuring patterns with "
+            "computed keys in any position, objects with arbitrary keys and order of untouched keys.", "7.10",
             "Coq proof + model/implementation correspondence + Python reference position model"),
     "C11": ("Theorems: limit(n;f) ++ skip(n;f) = f for every machine-integer count and every stream (error/break/out-of-fuel "
             "terminated included), non-positive counts, first = limit 1, nothing follows the first error. Correspondence + oracle: the "
